@@ -114,6 +114,15 @@ func (hashsched) Gen(r *Rng, cfg GenConfig) any {
 		n = 36
 	}
 	hsFill(r, c, n, true)
+	if len(c.Disk) > 0 && r.Chance(1, 6) {
+		// one large periodic file (a table of 16-byte records) whose size is not a multiple of common buffer sizes
+		for i := range c.Disk {
+			if c.Disk[i].Kind == "file" {
+				c.Disk[i].Content = fmt.Sprintf("@rep:%d:%s", Pick(r, []int{300, 2500, 5000, 6250, 9000}), "0123456789abcde\n")
+				break
+			}
+		}
+	}
 	// variants: same multiset, other order / schedule / without directories
 	nv := r.Range(2, 4)
 	for i := 0; i < nv; i++ {
@@ -212,6 +221,21 @@ func hsGenEdit(r *Rng, c *HashCase) (HEdit, bool) {
 	case k <= 1 && len(files) > 0: // edit
 		p := Pick(r, files)
 		old := hsContentOf(c, p)
+		if strings.HasPrefix(old, "@rep:") {
+			// grow a large periodic file by whole records: to the next 4 KiB / 32 KiB / 64 KiB boundary, or by one record
+			var n int
+			var unit string
+			fmt.Sscanf(old[len("@rep:"):], "%d", &n)
+			unit = old[strings.Index(old[len("@rep:"):], ":")+len("@rep:")+1:]
+			size := n * len(unit)
+			grow := []int{n + 1}
+			for _, b := range []int{4096, 32768, 65536} {
+				if next := (size/b + 1) * b; next%len(unit) == 0 {
+					grow = append(grow, next/len(unit))
+				}
+			}
+			return HEdit{Kind: "edit", A: p, Content: fmt.Sprintf("@rep:%d:%s", Pick(r, grow), unit)}, true
+		}
 		nc := Pick(r, hsContents)
 		if nc == old {
 			nc = old + "x"
@@ -340,6 +364,20 @@ type hashObs struct {
 
 func (w *World) corpus() string { return filepath.Join(w.Root, "hc") }
 
+// hsExpand turns a content descriptor into the bytes on disk: "@rep:<n>:<unit>" is <unit> repeated <n>
+// times (large, periodic files: fixed-width record tables, padding), anything else is literal.
+func hsExpand(content string) string {
+	if strings.HasPrefix(content, "@rep:") {
+		rest := content[len("@rep:"):]
+		if i := strings.IndexByte(rest, ':'); i > 0 {
+			n := 0
+			fmt.Sscanf(rest[:i], "%d", &n)
+			return strings.Repeat(rest[i+1:], n)
+		}
+	}
+	return content
+}
+
 func (w *World) hsMaterialise(disk []HEntry) {
 	root := w.corpus()
 	must(os.RemoveAll(root))
@@ -353,7 +391,7 @@ func (w *World) hsMaterialise(disk []HEntry) {
 			must(os.MkdirAll(filepath.Dir(full), 0o755))
 			must(os.Symlink(filepath.Join(root, "nowhere", "gone"), full))
 		default:
-			writeFile(full, e.Content)
+			writeFile(full, hsExpand(e.Content))
 			// every file carries the same modification time, as after `cp -p`, `touch -r`, a checkout that
 			// restores timestamps or on a file system with a coarse clock: (path, size, mtime) does not
 			// identify content
